@@ -11,22 +11,23 @@ import (
 func newRand(seed int64, stream string, idx int) *rand.Rand { return vf.Rand(seed, stream, idx) }
 
 type genOpts struct {
-	profile      string
-	maxP         int  // max pchannels
-	maxColls     int  // max collections
-	drops        bool // partition / collection drops in the scripts
-	late         bool // collections / partitions registered while data flows
-	deviants     bool // collections whose downstream placement differs from the base pairing (forces forwarding)
-	raceAddPart  bool // AddPartition right after StartReadCollection without waiting for stream registration
-	junk         bool // create*/tick/unsupported messages inside packs
-	skewMs       int  // max clock skew between source pchannels
-	packsMin     int
-	packsMax     int
-	oneDst       bool // all streams onto one downstream pchannel (C03)
-	dropOrder    bool // enumerate shard delivery orders of drops (C04)
-	unequalCount bool // SourceChannelNum != TargetChannelNum (C16 end-to-end)
+	profile        string
+	maxP           int  // max pchannels
+	maxColls       int  // max collections
+	drops          bool // partition / collection drops in the scripts
+	late           bool // collections / partitions registered while data flows
+	deviants       bool // collections whose downstream placement differs from the base pairing (forces forwarding)
+	raceAddPart    bool // AddPartition right after StartReadCollection without waiting for stream registration
+	junk           bool // create*/tick/unsupported messages inside packs
+	skewMs         int  // max clock skew between source pchannels
+	packsMin       int
+	packsMax       int
+	oneDst         bool // all streams onto one downstream pchannel (C03)
+	dropOrder      bool // enumerate shard delivery orders of drops (C04)
+	unequalCount   bool // SourceChannelNum != TargetChannelNum (C16 end-to-end)
 	partBeforeColl bool // the partitions of a late collection are announced concurrently with (possibly before) the collection itself
-	reincarnate  bool // a dropped partition is created again under the same name (new ids on both sides) and gets data
+	reincarnate    bool // a dropped partition is created again under the same name (new ids on both sides) and gets data
+	lateNewChan    bool // two collections on two source channels of their own; the second one (and with it the handler of its channel) starts late
 }
 
 // genCase builds a catalog, placements, scripts and steps. All choices come from rnd.
@@ -34,6 +35,9 @@ func genCase(seed int64, idx int, o genOpts) *Case {
 	rnd := newRand(seed, "gen-"+o.profile, idx)
 	c := &Case{Idx: idx, Profile: o.profile, Scripts: map[string][]PPack{}}
 	nP := 1 + rnd.Intn(o.maxP)
+	if o.lateNewChan && nP < 2 {
+		nP = 2
+	}
 	// both clusters usually use the same physical channel names
 	sameNames := rnd.Intn(2) == 0
 	sname, dname := srcPName, dstPName
@@ -51,6 +55,9 @@ func genCase(seed int64, idx int, o genOpts) *Case {
 	c.DelayPermil = []int{0, 250, 500}[rnd.Intn(3)]
 
 	nColl := 1 + rnd.Intn(o.maxColls)
+	if o.lateNewChan {
+		nColl = 2
+	}
 	// crosswise base pairing: nP single-shard anchor collections placed by a permutation of the channels
 	var crossPerm []int
 	if o.deviants && !o.oneDst && nP >= 2 && rnd.Intn(3) == 0 {
@@ -68,7 +75,9 @@ func genCase(seed int64, idx int, o genOpts) *Case {
 		nextSrcID += int64(1 + rnd.Intn(7))
 		nextDstID += int64(1 + rnd.Intn(7))
 		var srcIdx []int
-		if crossPerm != nil && ci < nP {
+		if o.lateNewChan {
+			srcIdx = []int{ci} // collection 0 on source channel 0, collection 1 alone on source channel 1
+		} else if crossPerm != nil && ci < nP {
 			srcIdx = []int{ci}
 		} else if ci == 0 {
 			// anchor: one shard on every source pchannel, base pairing src_i <-> dst_i
@@ -165,6 +174,9 @@ func genCase(seed int64, idx int, o genOpts) *Case {
 	lateColl := -1
 	if o.late && nColl > 1 && rnd.Intn(2) == 0 {
 		lateColl = 1 + rnd.Intn(nColl-1)
+	}
+	if o.lateNewChan {
+		lateColl = 1
 	}
 	if o.partBeforeColl && nColl > 1 {
 		// the race needs a late collection with several shards and a droppable partition: take the best candidate
@@ -391,7 +403,9 @@ func genCase(seed int64, idx int, o genOpts) *Case {
 				cands = append(cands, key)
 			}
 		}
-		sort.Slice(cands, func(i, j int) bool { return cands[i][0] < cands[j][0] || (cands[i][0] == cands[j][0] && cands[i][1] < cands[j][1]) })
+		sort.Slice(cands, func(i, j int) bool {
+			return cands[i][0] < cands[j][0] || (cands[i][0] == cands[j][0] && cands[i][1] < cands[j][1])
+		})
 		if len(cands) > 0 {
 			key := cands[rnd.Intn(len(cands))]
 			ci, pi := key[0], key[1]
@@ -505,6 +519,12 @@ func genClock(seed int64, idx int) *Case {
 			o.skewMs = 300
 		}
 	}
+	lateOld := idx%7 == 5
+	if lateOld {
+		// a collection on another source channel joins the shared downstream channel late, from an OLD checkpoint:
+		// the channel clock, already ahead, must only ever be raised by a handler that starts
+		o.late, o.oneDst, o.deviants, o.lateNewChan = true, true, false, true
+	}
 	c := genCase(seed, idx, o)
 	fam := idx % 3
 	switch fam {
@@ -545,6 +565,14 @@ func genClock(seed int64, idx int) *Case {
 			c.Colls[i].SeekTs = hts(1_700_000_000_000+uint64(rnd.Intn(3000)), 0)
 		}
 		c.Note += "+resume-from-checkpoint"
+	}
+	if lateOld {
+		for _, st := range c.Steps {
+			if st.Kind == sStartColl && st.Async {
+				c.Colls[st.Coll].SeekTs = hts(1_699_999_000_000+uint64(rnd.Intn(500)), 0)
+				c.Note += fmt.Sprintf("+late coll %d starts from an old checkpoint", st.Coll)
+			}
+		}
 	}
 	return c
 }
